@@ -27,11 +27,17 @@ func C14(run *hx.Run) {
 		if ps <= 1024 {
 			m["exhaustive"] = true
 		}
-		if run.Thorough() && ps == 2048 {
+		if run.Thorough() && ps <= 4096 {
 			m["exhaustive"] = true
 		}
-		if ps == 512 || ps == 65536 || (run.Thorough() && ps == 4096) {
+		if run.Thorough() && ps > 4096 {
+			m["spread"] = 48 // wider neighbourhoods of every threshold, K-flips up to 5 overflow pages
+		}
+		if ps == 512 || ps == 65536 || run.Thorough() {
 			m["huge"] = []int{1 << 20, 3_000_000}
+		}
+		if run.Thorough() && ps == 512 {
+			m["huge"] = []int{1 << 20, 3_000_000, 1<<21 + 1, 1 << 24} // 4-byte varint boundaries of payload size and serial type
 		}
 		profiles = append(profiles, m)
 	}
